@@ -1170,6 +1170,55 @@ def register(I):
     for ty in ("AtomicU32", "AtomicU64", "AtomicUsize", "AtomicBool", "AtomicI32", "AtomicI64"):
         R["%s::new" % ty] = (lambda I, st, args, info: Adt("Atomic", None, [args[0]]))
 
+    # thread_local!: one cell per key and (single) thread, lazily initialised by the key's init function
+    @reg("LocalKey::new")
+    def localkey_new(I, st, args, info):
+        a = args[0]
+        return Adt("LocalKey", None, [a.data if isinstance(a, Opaque) else repr(a)])
+
+    @reg("LocalKey::with", "LocalKey::try_with", "LocalKey::set", "LocalKey::get", "LocalKey::replace", "LocalKey::take")
+    def localkey_with(I, st, args, info):
+        key = deref_all(I, args[0], st)
+        name = key.fields[0]
+        ck = ("static", "tls:" + str(name))
+        if ck not in I.global_cells:
+            cands = [f for n, f in I.P.funcs.items() if n.endswith("__rust_std_internal_init_fn")]
+            if len(cands) != 1:
+                raise Unsupported("thread_local initialiser not identified (%d candidates)" % len(cands))
+            outs = I.call_fn(cands[0], [], st, {})
+            if len(outs) != 1 or isinstance(outs[0][1], Panic):
+                raise Unsupported("thread_local initialiser did not evaluate")
+            I.global_cells[ck] = outs[0][1]
+        if ck not in st.store:
+            st.store[ck] = I.global_cells[ck]
+        which = info.path.last()
+        if which in ("with", "try_with"):
+            outs = I.call_value(args[1], [Ref(ck, ())], st)
+            if which == "try_with":
+                outs = [(s, v if isinstance(v, Panic) else res_ok(v)) for s, v in outs]
+            for s, _ in outs:
+                I.global_cells[ck] = s.store.get(ck, I.global_cells[ck])
+            return outs
+        raise Unsupported("LocalKey::" + which)
+
+    @reg("Cell::new", "RefCell::new")
+    def cell_new(I, st, args, info):
+        return Adt("Cell", None, [args[0]])
+
+    @reg("Cell::get", "Cell::take", "Cell::replace", "Cell::set", "Cell::into_inner")
+    def cell_ops(I, st, args, info):
+        which = info.path.last()
+        r = args[0]
+        cur = I.read_ref(r, st) if isinstance(r, Ref) else deref_all(I, r, st)
+        val = cur.fields[0]
+        if which in ("get", "into_inner"):
+            return val
+        if not isinstance(r, Ref):
+            raise Unsupported("Cell::%s through a snapshot reference" % which)
+        new = args[1] if which in ("set", "replace") else Adt("Option", "None")
+        I.write_cell(r.key, r.path, Adt("Cell", None, [new]), st)
+        return () if which == "set" else val
+
     @reg("process::id", "::id")
     def process_id(I, st, args, info):
         I.nondet_reads.append("process id")
